@@ -3,7 +3,10 @@
 package main
 
 import (
+	"errors"
 	"math/big"
+
+	"github.com/ethereum/go-ethereum/common"
 
 	"github.com/ethereum/go-ethereum/core/state"
 	"github.com/ethereum/go-ethereum/core/vm"
@@ -27,3 +30,9 @@ func newEVM(ctx vm.Context, s *state.StateDB, mode string, bud uint64, tr *oogTr
 
 // the reference has no budget: nothing is reported as used
 func budgetLeft(e *vm.EVM, bud uint64) uint64 { return bud }
+
+// the core package of the reference cannot be built offline (its rpc dependencies are not in the module cache);
+// core.ApplyMessage is exercised on the in-tree side only
+func applyMessage(evm *vm.EVM, s *state.StateDB, from, to common.Address, input []byte) ([]byte, error) {
+	return nil, errors.New("not available on the reference side")
+}
